@@ -15,7 +15,7 @@ CHECKS = {
             "Trusted: reference semantics and AC normal form; commutative flag read as associative-commutative (the quantifier's restriction).",
             "DESIGN.md 3/C02"),
     "C03": ("runtime monitor: conversion histories flat<->deep over the term algebra, operator-listing oracle, flat-vs-deep soup differential",
-            "Exploration: every form reached by random conversion histories must show the reference tree's variables and term; operator listings are checked against the tree; arbitrary strings accepted by both parsers must agree in every form. Operator tables include negative priorities and priorities spread up to 99 000 (the statement says all operator tables).",
+            "Exploration: every form reached by random conversion histories must show the reference tree's variables and term; operator listings are checked against the tree; arbitrary strings accepted by both parsers must agree in every form. Operator tables include negative priorities and priorities spread up to 99 000 (the statement says all operator tables); a catalogue of float look-alikes (inf, nan, 1e3, ...) is compared between the flat and the deep form over f64.",
             "Trusted: reference semantics; equal acceptance of sloppy strings is deliberately not demanded.",
             "DESIGN.md 3/C03"),
     "C04": ("runtime monitor: hostile variable-name families and every slice length, term-algebra binding oracle",
@@ -23,15 +23,15 @@ CHECKS = {
             "Trusted: Rust's str ordering as the reference order; reference tree.",
             "DESIGN.md 3/C04"),
     "C05": ("runtime monitor: forward-mode dual numbers on the reference tree as oracle, exact rational arithmetic + guarded f64 comparison",
-            "Exploration: derivatives obtained through four code paths (flat, deep, converted both ways) and a second time for order 2 (two single calls, partial_iter, partial_nth), plus long single-level chains parsed directly as deep expressions, are evaluated at random points and compared with dual-number derivatives of the reference tree: equality over exact rationals, 1e-9 relative (plus 1e-10 of the largest intermediate magnitude) over f64 at guarded, well-conditioned interior points. Every derivative rule must have been exercised or the run is inconclusive; operators without a rule over a variable must give Err.",
+            "Exploration: derivatives obtained through four code paths (flat, deep, converted both ways) and a second time for order 2 (two single calls, partial_iter, partial_nth), plus long single-level chains parsed directly as deep expressions, derivatives of uncompiled flat expressions and derivatives over operator tables that are subsets of the defaults (Err or the true derivative), are evaluated at random points and compared with dual-number derivatives of the reference tree: equality over exact rationals, 1e-9 relative (plus 1e-10 of the largest intermediate magnitude) over f64 at guarded, well-conditioned interior points. Every derivative rule must have been exercised or the run is inconclusive; operators without a rule over a variable must give Err.",
             "Trusted: the dual-number rules in num.rs (the mathematical derivative table written independently); guards discard ~40 % of sampled points.",
             "DESIGN.md 3/C05"),
-    "C06": ("runtime monitor: all entry points and follow-up operations under catch_unwind over exhaustive short strings, token soup, vector token soup, mutated corpus, texts nested behind value-table operators, long/deep texts on an 8 MiB stack with in-flight witness files, hang monitor",
+    "C06": ("runtime monitor: all entry points and follow-up operations under catch_unwind over exhaustive short strings, token soup, a soup over the operator names found in the shipped tables at run time (i8 / i32 / i64 instantiations of the value type), vector token soup, mutated corpus, texts nested behind value-table operators, long/deep texts on an 8 MiB stack with in-flight witness files, hang monitor",
             "Exploration with an exhaustive sub-space (all strings of <=4/6 tokens over a 14-symbol alphabet): every text goes through ten parsing entry points and, when accepted, through evaluation, conversion, printing, listings, serde, operator application, substitution and differentiation. Panics are caught and attributed to their source location; aborts (stack overflow) kill the process, which ./check reports as a crash with the in-flight text; a hang monitor reports a text that keeps a worker busy for minutes.",
             "Trusted: catch_unwind; differentiation only for texts <= 80 tokens / nesting <= 20 (the property excludes deeper recursion of the deep form).",
             "DESIGN.md 3/C06"),
     "C07": ("runtime monitor: exhaustive single-point damage of rendered well-formed texts, all parser entry points must return Err",
-            "Fault-style exploration: for every generated well-formed text ALL single-point damages of the listed kinds are applied (each parenthesis deleted; '(' , ')' and an illegal character inserted at every character position outside braces; every binary operator appended; an extra operand placed left and right of every primary operand token, with and without a separator) and every parser entry point (term-algebra tables, shipped float table, shipped value table) must reject. ~10^6 damaged variants in the quick tier.",
+            "Fault-style exploration: for every generated well-formed text ALL single-point damages of the listed kinds are applied (each parenthesis deleted; '(' , ')' and an illegal character inserted at every character position outside braces; every binary operator appended; an extra operand placed left and right of every primary operand token, with and without a separator) and every parser entry point (term-algebra tables, shipped float table, shipped value table; deserialisation of a flat expression from the text included) must reject. ~10^6 damaged variants in the quick tier.",
             "Trusted: the renderer produces well-formed texts (originals rejected by all parsers are skipped and counted); the illegal-character set is disjoint from every table in use; tab/newline are not treated as illegal.",
             "DESIGN.md 3/C07"),
     "C08": ("runtime monitor: call-form renderings of reference trees over the term algebra + call text vs literal ((a) op (b)) expansion on the shipped tables",
@@ -43,11 +43,11 @@ CHECKS = {
             "Trusted: hook H2 counts every call of partial_deepex; dual-number reference. Repeated single partial calls are allowed to work before reaching a bad index.",
             "DESIGN.md 3/C09"),
     "C10": ("runtime monitor: operator-application histories over expression pools; term-algebra oracle for by-name application, exact-rational / guarded-f64 oracle for overloaded arithmetic with shortcut-hit counters",
-            "Exploration: histories of operate_unary/operate_binary by name on FlatEx and DeepEx (term algebra, random tables: sorted union of variables, term mod AC equals operator applied to operands' reference trees, unknown names are errors), the 23 named helpers, and histories of + - * / neg pow and unary functions on DeepEx over exact rationals and f64 with neutral constants over-represented; values compared with the unsimplified reference wherever it is finite (the statement's proviso). Every shortcut branch must have fired or the run is inconclusive.",
+            "Exploration: histories of operate_unary/operate_binary by name on FlatEx and DeepEx (term algebra, random tables: sorted union of variables, term mod AC equals operator applied to operands' reference trees, unknown names are errors), the 23 named helpers, and histories of + - * / neg pow and unary functions on DeepEx over exact rationals and f64 with neutral constants over-represented; values compared with the unsimplified reference wherever it is finite (the statement's proviso). The overloaded ^ and unary - are compared with application by name and with the parsed text over a table where they are no power / no involution. Every shortcut branch must have fired or the run is inconclusive.",
             "Trusted: reference trees and their evaluation (eval_tree); the proviso filter (unsimplified reference finite, no 0^(<=0)).",
             "DESIGN.md 3/C10"),
     "C11": ("runtime monitor: substitution histories over the term algebra against one-pass model substitution on the reference tree",
-            "Exploration: 1..3 rounds of partial maps (constants, renamings, swaps, identity, empty, compound and self-referential replacements) on FlatEx and DeepEx; after every round variable list (sorted union) and term (mod AC) must equal the model's.",
+            "Exploration: 1..3 rounds of partial maps (constants, renamings, swaps, identity, empty, compound and self-referential replacements) on FlatEx and DeepEx; after every round variable list (sorted union) and term (mod AC) must equal the model's; over f64 also with derivatives as replacements (they list more variables than they use) and constants that fold to inf / NaN.",
             "Trusted: model_subs (8 lines) and the reference semantics.",
             "DESIGN.md 3/C11"),
     "C12": ("runtime monitor: print/parse and serde round trips over the term algebra (Debug form is a matcher literal by construction) and the shipped tables",
@@ -55,35 +55,35 @@ CHECKS = {
             "Trusted: reference tree; a derivative's printed text can only bring back variables that still occur (C09 keeps the full list), so derivatives are compared binding by name.",
             "DESIGN.md 3/C12"),
     "C13": ("runtime monitor: reference lexer + recursive-descent reference parser as oracle over targeted lexical families, exhaustive literal spellings",
-            "Exploration with exhaustive sub-spaces (all strings of length <=5 over [0-9.]; all sign chains of length <=4): every operator/constant name of 8 tables (small ones also reversed) (default float names, value-table names, unary/constant/binary and symbolic prefix chains, Greek, digits in names, binary names that are prefixes of unary names and constants) is extended / truncated / followed by every kind of continuation, and the real parsers' variable lists and terms are compared with the documented reading computed by an independent reference lexer and parser.",
+            "Exploration with exhaustive sub-spaces (all strings of length <=5 over [0-9.]; all sign chains of length <=4): every operator/constant name of 8 tables (small ones also reversed) (default float names, value-table names, unary/constant/binary and symbolic prefix chains, Greek, digits in names, binary names that are prefixes of unary names and constants) is extended / truncated / followed by every kind of continuation, float look-alikes (nan, inf, 1e3, ...) go through FlatEx<f64/f32>, DeepEx<f64> and eval_str; and the real parsers' variable lists and terms are compared with the documented reading computed by an independent reference lexer and parser.",
             "Trusted: the reference lexer/parser (model.rs, ~200 lines, no regexes); texts the model rejects are not judged except invalid number spellings.",
             "DESIGN.md 3/C13"),
     "C14": ("runtime monitor: reduction-trace hook (H1) checked online against a shadow consumed-set, term-algebra result oracle, tracker driven directly against Vec<bool>",
-            "Exploration with an exhaustive sub-space: every application order of chains with up to 8 (quick) / 9 (thorough) operands, structured and random orders at lengths straddling 32/64/128/192/256/500/1000 operands; each reduction step of eval_binary is observed through hook H1 and checked (nearest live operands, nothing consumed twice, order imposed by priorities), the final term is compared with the model (also for chains of shuffled / repeated variables and literals through eval_vec and eval_iter), and both NumberTracker implementations are driven directly against a Vec<bool> shadow.",
+            "Exploration with an exhaustive sub-space: every application order of chains with up to 8 (quick) / 9 (thorough) operands, structured and random orders at lengths straddling 32/64/128/192/256/500/1000 operands; each reduction step of eval_binary is observed through hook H1 and checked (nearest live operands, nothing consumed twice, order imposed by priorities), the final term is compared with the model (also for chains of shuffled / repeated variables and literals through eval_vec and eval_iter), both NumberTracker implementations are driven directly against a Vec<bool> shadow; reductions interrupted by a panicking user operator, and evaluation before and after an explicit compile(), must leave no trace.",
             "Trusted: the 30-line chain-reduction model; hook H1 records (op, left, right, n) faithfully.",
             "DESIGN.md 3/C14"),
     "C15": ("runtime monitor: move/clone/placeholder-tracking value type at the public API",
-            "Exploration: the flat evaluator runs over a value type that counts clones per variable identity and flags default placeholders; every operand reaching an operator is inspected. eval_vec/eval_iter are compared with eval and with the reference tree on ~10^5 (quick) random expressions with arbitrary repetition patterns; a second tracking type (8 bytes, plain data, observable Clone) repeats the move/clone check.",
+            "Exploration: the flat evaluator runs over a value type that counts clones per variable identity and flags default placeholders; every operand reaching an operator is inspected. eval_vec/eval_iter are compared with eval and with the reference tree on ~10^5 (quick) random expressions with arbitrary repetition patterns; a second tracking type (8 bytes, plain data, observable Clone) repeats the move/clone check; derivatives over 65..140 variables; consuming evaluations interrupted by a panicking user operator.",
             "Trusted: Tok's Clone/Default instrumentation; nothing demanded about clone counts of repeated variables.",
             "DESIGN.md 3/C15"),
     "C16": ("runtime monitor: exhaustive operator x special-operand catalogue against a reference interpreter of the documented rules; expression-level differential against the operator functions applied along the reference tree",
-            "Fault-style enumeration + exploration: every operator of both shipped instantiations of the value table x every catalogue value / ordered pair (about 2*10^5 applications) plus random operands is compared with a reference interpreter that asserts only what the documentation promises; random value-typed expressions through parse_val are compared with the reference-tree evaluation (an error reached only by a permitted regrouping of a flagged operator's chain is not judged).",
+            "Fault-style enumeration + exploration: every operator of both shipped instantiations of the value table x every catalogue value / ordered pair (about 2*10^5 applications) plus random operands is compared with a reference interpreter that asserts only what the documentation promises; random value-typed expressions through parse_val are compared with the reference-tree evaluation (an error reached only by a permitted regrouping of a flagged operator's chain is not judged). The narrow instantiation (i32) always runs before the wide one (i64) in this process.",
             "Trusted: valmodel.rs (documented rules only; undocumented pairs are NoClaim); the sign of a zero from min/max is unspecified in Rust and compared with ==.",
             "DESIGN.md 3/C16"),
     "C17": ("runtime monitor: operator x special-operand catalogue under catch_unwind in two build profiles (release, overflow-checks+debug-assertions), the same operands through parse-time folding",
-            "Fault-style enumeration: totality (no panic) and error values in the situations the statement names, observed in a release build (wrapping would show as a non-error result) and in a build where integer overflow traps; catalogue values are also written as literal expressions so that folding inside parse_val executes every operator at parse time.",
+            "Fault-style enumeration: totality (no panic) and error values in the situations the statement names, observed in a release build (wrapping would show as a non-error result) and in a build where integer overflow traps; catalogue values are also written as literal expressions so that folding inside parse_val executes every operator at parse time. The release process runs the wide instantiation (i64) first, the overflow-checking process the narrow one (i32).",
             "Trusted: valmodel.rs for where an error value is promised; catch_unwind (an abort would kill the process and is reported by ./check as a crash).",
             "DESIGN.md 3/C17"),
     "C18": ("runtime monitor: typed dual-number evaluator (documented int/float/bool typing, branch selection) as oracle for derivatives of value-typed piecewise expressions",
-            "Exploration: nested `f if cond else g` expressions with mixed integer/float literals are differentiated through FlatExVal and DeepEx and evaluated at float points on both sides of the branch conditions, plus piecewise integer polynomials at integer-typed points (exact) and branches that are long single-level chains; the reference differentiates the branch selected at the point. One genuine defect class (K1, integer division in derivative constants) is carved out of the generator by predicate and kept as a fixed witness catalogue reported as KNOWN-FINDING.",
+            "Exploration: nested `f if cond else g` expressions with mixed integer/float literals are differentiated through FlatExVal and DeepEx and evaluated at float points on both sides of the branch conditions, plus piecewise integer polynomials at integer-typed points (exact) branches that are long single-level chains, and division-free expressions with elementary functions at integer points (judged where the expression itself evaluates to the all-float value); the reference differentiates the branch selected at the point. One genuine defect class (K1, integer division in derivative constants) is carved out of the generator by predicate and kept as a fixed witness catalogue reported as KNOWN-FINDING.",
             "Trusted: the typed evaluator in c18.rs; variables bound to Float values; conditions depend on at least one variable (the property's quantifier).",
             "DESIGN.md 3/C18"),
     "C19": ("runtime monitor: name -> Rust primitive reference table applied to an exhaustive special-value catalogue and random values, directly and through parsed one-operator expressions",
-            "Fault-style enumeration + exploration: all 36 operators and 6 constants of the default table for f32 and f64; every ordered pair of 37 special values per binary operator (pins argument order, NaN/inf/signed-zero behaviour), random values across magnitudes and raw bit patterns; via function pointers, FlatEx, DeepEx (infix, call, juxtaposed) and eval_str literals. Agreement = identical bits, both NaN, or <= 4 ulp in the same class.",
+            "Fault-style enumeration + exploration: all 36 operators and 6 constants of the default table for f32 and f64; every ordered pair of 37 special values per binary operator (pins argument order, NaN/inf/signed-zero behaviour), random values across magnitudes and raw bit patterns; via function pointers, FlatEx, DeepEx (infix, call, juxtaposed), eval_str literals, and every unary operator applied on top of every unary operator (parsed, and through operate_unary). Agreement = identical bits, both NaN, or <= 4 ulp in the same class.",
             "Trusted: the independent name->primitive table in c19.rs; the zero sign of min/max is unspecified in Rust and exempt.",
             "DESIGN.md 3/C19"),
     "C20": ("sanitizers + runtime monitor: thread workload in fresh processes compared with a sequential run; ThreadSanitizer (-Zbuild-std); Miri with several scheduler seeds; compile-time Send+Sync assertion crate",
-            "Exploration of schedules: N fresh processes x 16 threads racing the first-use initialisation and evaluating shared expressions, results bit-identical to a sequential run and identical across processes (the digest includes probe texts parsed through five data types; the first parse of a thread uses a thread-dependent data type); an evaluation that panics in a user operator is part of the evaluation history; the same workload under ThreadSanitizer and under Miri (data races, UB). Arrival orders at the initialisation race are recorded and counted (interleavings actually seen).",
+            "Exploration of schedules: N fresh processes x 16 threads racing the first-use initialisation and evaluating shared expressions, results bit-identical to a sequential run and identical across processes (the digest includes probe texts parsed through five data types; the first parse of a thread uses a thread-dependent data type); an evaluation that panics in a user operator is part of the evaluation history; fact(1..=20) of the value type is evaluated by all threads right after the cold start; the same workload under ThreadSanitizer and under Miri (data races, UB). Arrival orders at the initialisation race are recorded and counted (interleavings actually seen).",
             "Trusted: TSan/Miri as race oracles on the executions produced; rustc for the Send/Sync fact. Value comparisons are not judged under Miri (it randomises float intrinsics and fn-pointer addresses).",
             "DESIGN.md 3/C20"),
 }
